@@ -1018,6 +1018,16 @@ func (vm *VirtualMachine) reloadCode(main *compiler.Code) *code {
 	delete(vm.loadedCode, main)
 	newWrappedMain := vm.loadCode(main)
 	copy(newWrappedMain.Globals, oldWrappedMain.Globals)
+	// Functions loaded during earlier runs share the globals of the main code.
+	// Point them at the new array, otherwise they keep reading and writing
+	// the globals as they were when the function was first loaded.
+	vm.cloneMutex.Lock()
+	defer vm.cloneMutex.Unlock()
+	for cc, c := range vm.loadedCode {
+		if cc != main && cc.Root() == main {
+			c.Globals = newWrappedMain.Globals
+		}
+	}
 	return newWrappedMain
 }
 
